@@ -168,7 +168,7 @@ func parseProgressiveMp4(w io.Writer, f *mp4.File, maxNrSamples int, codec strin
 	stbl := videoTrak.Mdia.Minf.Stbl
 	if stbl.Stsd.AvcX != nil {
 		codec = "avc"
-		if stbl.Stsd.AvcX.AvcC != nil {
+		if stbl.Stsd.AvcX.AvcC != nil && len(stbl.Stsd.AvcX.AvcC.SPSnalus) > 0 {
 			avcSPS, err = avc.ParseSPSNALUnit(stbl.Stsd.AvcX.AvcC.SPSnalus[0], true)
 			if err != nil {
 				return fmt.Errorf("error parsing SPS: %s", err)
@@ -269,7 +269,7 @@ func parseFragmentedMp4(w io.Writer, f *mp4.File, maxNrSamples int, codec string
 		stbl := videoTrak.Mdia.Minf.Stbl
 		if stbl.Stsd.AvcX != nil {
 			codec = "avc"
-			if stbl.Stsd.AvcX.AvcC != nil {
+			if stbl.Stsd.AvcX.AvcC != nil && len(stbl.Stsd.AvcX.AvcC.SPSnalus) > 0 {
 				avcSPS, err = avc.ParseSPSNALUnit(stbl.Stsd.AvcX.AvcC.SPSnalus[0], true)
 				if err != nil {
 					return fmt.Errorf("error parsing SPS: %s", err)
